@@ -141,7 +141,7 @@ theorem RR.writeG_spec (c : Bool) (r : RR) (off : Nat) (t : Table) (hwf : r.WF) 
       simp only [RData.typeOf, if_true]
       rw [hb, hcw, optParse_frame (out ++ nb.1) _ o.udp r.ttl (beN 2 (encTlvs 2 2 o.codes).length)
         o.codes hrdwf.1.1 httl (by simp) hrdwf.1.2.2]
-      simp only [Out.bind_ok, RData.typeOf, if_true, Out.pure_eq]
+      simp only [Out.bind_ok, if_true, Out.pure_eq]
       rw [← hc3]
       rw [hb] at hlen'
       rw [hlen']
@@ -162,7 +162,7 @@ theorem RR.writeG_spec (c : Bool) (r : RR) (off : Nat) (t : Table) (hwf : r.WF) 
           simp only [Out.bind_ok, Out.pure_eq]
           rw [hemp] at hnopt
           rw [if_neg (by simpa [RData.typeOf] using hnopt), hcw, hcls]
-          simp only [Out.bind_ok, Out.pure_eq, hfl]
+          simp only [Out.bind_ok, hfl]
           rw [hlen', hb0, ← hemp]
           cases r; rfl
         · rw [if_neg (by
@@ -177,7 +177,7 @@ theorem RR.writeG_spec (c : Bool) (r : RR) (off : Nat) (t : Table) (hwf : r.WF) 
           rw [e, e2, hp]
           simp only [Out.bind_ok, Out.pure_eq]
           rw [if_neg hnopt, hcw, hcls]
-          simp only [Out.bind_ok, Out.pure_eq, hfl]
+          simp only [Out.bind_ok, hfl]
           rw [← e2, hlen']
   · -- comparison with the plain writer
     obtain ⟨pb, hpb, hle, heq⟩ := hS.plain
